@@ -18,7 +18,7 @@ pub struct C18;
 type StepOut = Vec<(String, Vec<Vec<u64>>)>;
 
 enum Job {
-    Construct(Cfg, usize, bool),
+    Construct(Cfg, usize, u8),
     Step(Box<Runner<f64>>, Vec<Op>),
     Quit,
 }
@@ -41,15 +41,15 @@ fn exec(r: &mut Runner<f64>, ops: &[Op]) -> StepOut {
     out
 }
 
-fn build(cfg: &Cfg, instance: usize, hostile: bool) -> Result<Box<Runner<f64>>, String> {
+fn build(cfg: &Cfg, instance: usize, hostile: u8) -> Result<Box<Runner<f64>>, String> {
     // every instance gets its own signal so that leaked data is visible
-    let signal = if hostile { Signal::NoiseSubnormalCh(7 * instance) } else { Signal::NoiseCh(7 * instance) };
+    let signal = if hostile == 1 { Signal::NoiseSubnormalCh(7 * instance) } else { Signal::NoiseCh(7 * instance) };
     let mut r = Runner::<f64>::new(cfg, signal)?;
     r.keep_out = true;
     Ok(Box::new(r))
 }
 
-fn solo(cfg: &Cfg, instance: usize, partial: bool, hostile: bool) -> Result<Vec<StepOut>, String> {
+fn solo(cfg: &Cfg, instance: usize, partial: bool, hostile: u8) -> Result<Vec<StepOut>, String> {
     crate::run::install_panic_hook();
     let mut r = build(cfg, instance, hostile)?;
     let mut outs = Vec::new();
@@ -119,6 +119,9 @@ fn fresh_process_reference(mix: usize, instance: usize) -> Result<Vec<StepOut>, 
     let exe = std::env::current_exe().map_err(|e| e.to_string())?;
     let out = std::process::Command::new(exe)
         .args(["c18ref", &mix.to_string(), &instance.to_string()])
+        // another fill pattern for fresh heap blocks than this process uses (alloc.rs): memory
+        // that is read before it is written makes the two differ
+        .env("HX_POISON", "66")
         .output()
         .map_err(|e| format!("c18ref: {}", e))?;
     if !out.status.success() {
@@ -152,12 +155,19 @@ struct Mix {
     /// every instance runs on a subnormal-level signal and the asynchronous ones make a
     /// rejected call (output buffer one frame short) between their first two calls: error
     /// paths that leave something behind on the thread (floating-point mode, scratch state)
-    hostile: bool,
+    hostile: u8,
 }
 
-fn script(cfg: &Cfg, partial: bool, hostile: bool) -> Vec<Vec<Op>> {
+fn script(cfg: &Cfg, partial: bool, hostile: u8) -> Vec<Vec<Op>> {
     // step 0 is the construction
-    if hostile {
+    if hostile == 2 {
+        // a ratio decrease before the first call, a call with the second channel masked off, then
+        // calls with every channel active: the room the buffers reserve for lower ratios is used
+        // for the first time by a channel that sat out a call
+        let lo = 1.0 / cfg.max_rel;
+        return vec![vec![Op::R(lo, false), Op::PM(0b01, false), Op::P], vec![Op::P, Op::P]];
+    }
+    if hostile == 1 {
         use crate::ops::Bad;
         return vec![vec![Op::P, Op::Bad(Bad::OutShort(0, 1)), Op::P], vec![Op::Bad(Bad::InShort(0, 1)), Op::P]];
     }
@@ -182,60 +192,63 @@ fn mixes() -> Vec<Mix> {
     let xo = Cfg::fft(Kind::XO, 2, 3, 48, 2).with_channels(2);
     let xx = Cfg::fft(Kind::XX, 2, 3, 16, 1).with_channels(2);
     let mut v = vec![
-        Mix { hostile: false, partial: false, name: "XI+XI equal fft sizes".to_string(), cfgs: vec![xi.clone(), xi.clone()] },
-        Mix { hostile: false, partial: false, name: "XO+XX equal fft sizes".to_string(), cfgs: vec![xo.clone(), xx.clone()] },
-        Mix { hostile: false, partial: false, name: "SI+SI identical tables".to_string(), cfgs: vec![si.clone(), si.clone()] },
-        Mix { hostile: false, partial: false, name: "SO+FI".to_string(), cfgs: vec![so.clone(), fi.clone()] },
-        Mix { hostile: false, partial: false, name: "SI+FO+XI".to_string(), cfgs: vec![si.clone(), fo.clone(), xi.clone()] },
-        Mix { hostile: false, partial: false, name: "XX+XI+XO equal fft sizes".to_string(), cfgs: vec![xx, xi.clone(), xo] },
+        Mix { hostile: 0, partial: false, name: "XI+XI equal fft sizes".to_string(), cfgs: vec![xi.clone(), xi.clone()] },
+        Mix { hostile: 0, partial: false, name: "XO+XX equal fft sizes".to_string(), cfgs: vec![xo.clone(), xx.clone()] },
+        Mix { hostile: 0, partial: false, name: "SI+SI identical tables".to_string(), cfgs: vec![si.clone(), si.clone()] },
+        Mix { hostile: 0, partial: false, name: "SO+FI".to_string(), cfgs: vec![so.clone(), fi.clone()] },
+        Mix { hostile: 0, partial: false, name: "SI+FO+XI".to_string(), cfgs: vec![si.clone(), fo.clone(), xi.clone()] },
+        Mix { hostile: 0, partial: false, name: "XX+XI+XO equal fft sizes".to_string(), cfgs: vec![xx, xi.clone(), xo] },
         // equal input block, different output block (a cache keyed too coarsely would collide)
-        Mix { hostile: false, partial: false, name: "XX 3->2 + XX 3->1 same input block".to_string(), cfgs: vec![Cfg::fft(Kind::XX, 3, 2, 24, 1).with_channels(2), Cfg::fft(Kind::XX, 3, 1, 24, 1).with_channels(2)] },
-        Mix { hostile: false, partial: false, name: "XI 2->3 + XX 2->1 same input block".to_string(), cfgs: vec![xi, Cfg::fft(Kind::XX, 2, 1, 16, 1).with_channels(2)] },
+        Mix { hostile: 0, partial: false, name: "XX 3->2 + XX 3->1 same input block".to_string(), cfgs: vec![Cfg::fft(Kind::XX, 3, 2, 24, 1).with_channels(2), Cfg::fft(Kind::XX, 3, 1, 24, 1).with_channels(2)] },
+        Mix { hostile: 0, partial: false, name: "XI 2->3 + XX 2->1 same input block".to_string(), cfgs: vec![xi, Cfg::fft(Kind::XX, 2, 1, 16, 1).with_channels(2)] },
         // instances that carry saved frames from call to call (chunk not a multiple of the block)
-        Mix { hostile: false, partial: false, name: "XI+XI with saved input frames".to_string(), cfgs: vec![Cfg::fft(Kind::XI, 3, 2, 16, 1).with_channels(2), Cfg::fft(Kind::XI, 3, 2, 16, 1).with_channels(2)] },
-        Mix { hostile: false, partial: false, name: "XO+XO with saved output frames".to_string(), cfgs: vec![Cfg::fft(Kind::XO, 2, 3, 10, 1).with_channels(2), Cfg::fft(Kind::XO, 2, 3, 10, 1).with_channels(2)] },
-        Mix { hostile: false, partial: false, name: "FO+FO identical".to_string(), cfgs: vec![fo.clone(), fo.clone()] },
+        Mix { hostile: 0, partial: false, name: "XI+XI with saved input frames".to_string(), cfgs: vec![Cfg::fft(Kind::XI, 3, 2, 16, 1).with_channels(2), Cfg::fft(Kind::XI, 3, 2, 16, 1).with_channels(2)] },
+        Mix { hostile: 0, partial: false, name: "XO+XO with saved output frames".to_string(), cfgs: vec![Cfg::fft(Kind::XO, 2, 3, 10, 1).with_channels(2), Cfg::fft(Kind::XO, 2, 3, 10, 1).with_channels(2)] },
+        Mix { hostile: 0, partial: false, name: "FO+FO identical".to_string(), cfgs: vec![fo.clone(), fo.clone()] },
         // identical sinc table sizes, different cutoff / window
-        Mix { hostile: false, partial: false, name: "SI+SI same table size different filter".to_string(), cfgs: vec![si.clone(), { let mut c = si.clone(); c.ratio = 0.8; c.window = rubato::WindowFunction::Hann; c }] },
+        Mix { hostile: 0, partial: false, name: "SI+SI same table size different filter".to_string(), cfgs: vec![si.clone(), { let mut c = si.clone(); c.ratio = 0.8; c.window = rubato::WindowFunction::Hann; c }] },
         // same oversampling factor, different interpolation order (per-thread tables keyed by the factor only)
-        Mix { hostile: false, partial: false, name: "SI Cubic + SI Quadratic same oversampling".to_string(), cfgs: vec![si.clone(), { let mut c = si.clone(); c.interp = Interp::Quadratic; c }] },
-        Mix { hostile: false, partial: false, name: "SO Quadratic + SI Linear + SO Cubic same oversampling".to_string(), cfgs: vec![{ let mut c = so.clone(); c.interp = Interp::Quadratic; c }, { let mut c = si.clone(); c.interp = Interp::Linear; c }, so.clone()] },
-        Mix { hostile: false, partial: false, name: "FI Cubic + FI Septic".to_string(), cfgs: vec![fi.clone(), { let mut c = fi.clone(); c.degree = Degree::Septic; c }] },
+        Mix { hostile: 0, partial: false, name: "SI Cubic + SI Quadratic same oversampling".to_string(), cfgs: vec![si.clone(), { let mut c = si.clone(); c.interp = Interp::Quadratic; c }] },
+        Mix { hostile: 0, partial: false, name: "SO Quadratic + SI Linear + SO Cubic same oversampling".to_string(), cfgs: vec![{ let mut c = so.clone(); c.interp = Interp::Quadratic; c }, { let mut c = si.clone(); c.interp = Interp::Linear; c }, so.clone()] },
+        Mix { hostile: 0, partial: false, name: "FI Cubic + FI Septic".to_string(), cfgs: vec![fi.clone(), { let mut c = fi.clone(); c.degree = Degree::Septic; c }] },
         // large tables whose lengths divide each other (a shared table or window served by striding)
-        Mix { hostile: false, partial: false, name: "SI 192x256 + SI 64x256 taps x oversampling".to_string(), cfgs: vec![
+        Mix { hostile: 0, partial: false, name: "SI 192x256 + SI 64x256 taps x oversampling".to_string(), cfgs: vec![
             Cfg::sinc(Kind::SI, 1.2, 1.0, 64, 192, 256, Interp::Linear, Kernel::Dispatch),
             Cfg::sinc(Kind::SI, 1.2, 1.0, 64, 64, 256, Interp::Linear, Kernel::Dispatch),
         ] },
-        Mix { hostile: false, partial: false, name: "SO 320x256 Hann + SI 64x256 Hann2".to_string(), cfgs: vec![
+        Mix { hostile: 0, partial: false, name: "SO 320x256 Hann + SI 64x256 Hann2".to_string(), cfgs: vec![
             { let mut c = Cfg::sinc(Kind::SO, 0.8, 1.0, 64, 320, 256, Interp::Cubic, Kernel::Dispatch); c.window = rubato::WindowFunction::Hann; c },
             { let mut c = Cfg::sinc(Kind::SI, 0.8, 1.0, 64, 64, 256, Interp::Cubic, Kernel::Dispatch); c.window = rubato::WindowFunction::Hann2; c },
         ] },
-        Mix { hostile: false, partial: false, name: "XX 49152-point block + SI 64x256 (BlackmanHarris2 windows)".to_string(), cfgs: vec![
+        Mix { hostile: 0, partial: false, name: "XX 49152-point block + SI 64x256 (BlackmanHarris2 windows)".to_string(), cfgs: vec![
             Cfg::fft(Kind::XX, 3, 2, 49152, 1),
             Cfg::sinc(Kind::SI, 1.2, 1.0, 64, 64, 256, Interp::Nearest, Kernel::Dispatch),
         ] },
         // parameters that differ only slightly (a cache keyed on rounded floats would collide)
-        Mix { hostile: false, partial: false, name: "SI+SI cutoffs 3e-5 apart".to_string(), cfgs: vec![si.clone(), { let mut c = si.clone(); c.f_cutoff += 3.0e-5; c }] },
-        Mix { hostile: false, partial: false, name: "SI+SO downsampling, ratios 5e-5 apart".to_string(), cfgs: vec![{ let mut c = si.clone(); c.ratio = 0.91875; c }, { let mut c = so.clone(); c.ratio = 0.9187; c }] },
+        Mix { hostile: 0, partial: false, name: "SI+SI cutoffs 3e-5 apart".to_string(), cfgs: vec![si.clone(), { let mut c = si.clone(); c.f_cutoff += 3.0e-5; c }] },
+        Mix { hostile: 0, partial: false, name: "SI+SO downsampling, ratios 5e-5 apart".to_string(), cfgs: vec![{ let mut c = si.clone(); c.ratio = 0.91875; c }, { let mut c = so.clone(); c.ratio = 0.9187; c }] },
         // same type and ratios, different chunk sizes (state keyed without the chunk size would collide)
-        Mix { hostile: false, partial: false, name: "FI+FI chunk 16 and 24".to_string(), cfgs: vec![fi.clone(), { let mut c = fi.clone(); c.chunk = 24; c }] },
-        Mix { hostile: false, partial: false, name: "FO+FO chunk 16 and 9".to_string(), cfgs: vec![fo.clone(), { let mut c = fo.clone(); c.chunk = 9; c }] },
-        Mix { hostile: false, partial: false, name: "SI+SI chunk 24 and 7".to_string(), cfgs: vec![si.clone(), { let mut c = si.clone(); c.chunk = 7; c }] },
-        Mix { hostile: false, partial: false, name: "SO+SO chunk 24 and 7".to_string(), cfgs: vec![so.clone(), { let mut c = so.clone(); c.chunk = 7; c }] },
+        Mix { hostile: 0, partial: false, name: "FI+FI chunk 16 and 24".to_string(), cfgs: vec![fi.clone(), { let mut c = fi.clone(); c.chunk = 24; c }] },
+        Mix { hostile: 0, partial: false, name: "FO+FO chunk 16 and 9".to_string(), cfgs: vec![fo.clone(), { let mut c = fo.clone(); c.chunk = 9; c }] },
+        Mix { hostile: 0, partial: false, name: "SI+SI chunk 24 and 7".to_string(), cfgs: vec![si.clone(), { let mut c = si.clone(); c.chunk = 7; c }] },
+        Mix { hostile: 0, partial: false, name: "SO+SO chunk 24 and 7".to_string(), cfgs: vec![so.clone(), { let mut c = so.clone(); c.chunk = 7; c }] },
         // end-of-stream calls of instances with different channel counts (a shared scratch for the
         // padded input would be cleared for the caller's channels only)
-        Mix { hostile: false, partial: true, name: "FI 2ch + FI 1ch, partial calls".to_string(), cfgs: vec![fi.clone(), fi.clone().with_channels(1)] },
-        Mix { hostile: false, partial: true, name: "FI 2ch + SO 3ch, partial calls".to_string(), cfgs: vec![fi.clone(), so.clone().with_channels(3)] },
-        Mix { hostile: false, partial: true, name: "XI 2ch + XO 1ch, partial calls".to_string(), cfgs: vec![Cfg::fft(Kind::XI, 2, 3, 32, 2).with_channels(2), Cfg::fft(Kind::XO, 2, 3, 48, 2).with_channels(1)] },
+        Mix { hostile: 0, partial: true, name: "FI 2ch + FI 1ch, partial calls".to_string(), cfgs: vec![fi.clone(), fi.clone().with_channels(1)] },
+        Mix { hostile: 0, partial: true, name: "FI 2ch + SO 3ch, partial calls".to_string(), cfgs: vec![fi.clone(), so.clone().with_channels(3)] },
+        Mix { hostile: 0, partial: true, name: "XI 2ch + XO 1ch, partial calls".to_string(), cfgs: vec![Cfg::fft(Kind::XI, 2, 3, 32, 2).with_channels(2), Cfg::fft(Kind::XO, 2, 3, 48, 2).with_channels(1)] },
         // rejected calls of one instance, subnormal-level signals in all: whatever an error path
         // leaves behind on the thread (floating-point control bits, half-updated scratch) shows
         // in the instance that runs there next
-        Mix { hostile: true, partial: false, name: "SI+FI rejected calls, subnormal signal".to_string(), cfgs: vec![si.clone(), fi.clone()] },
-        Mix { hostile: true, partial: false, name: "SO+FO rejected calls, subnormal signal".to_string(), cfgs: vec![so.clone(), fo.clone()] },
-        Mix { hostile: true, partial: false, name: "SI+XI rejected calls, subnormal signal".to_string(), cfgs: vec![si.clone(), Cfg::fft(Kind::XI, 2, 3, 32, 2).with_channels(2)] },
-        Mix { hostile: true, partial: false, name: "FI+SO+XX rejected calls, subnormal signal".to_string(), cfgs: vec![fi.clone(), so.clone(), Cfg::fft(Kind::XX, 2, 3, 16, 1).with_channels(2)] },
-        Mix { hostile: true, partial: false, name: "XO+SI rejected calls, subnormal signal".to_string(), cfgs: vec![Cfg::fft(Kind::XO, 2, 3, 48, 2).with_channels(2), si.clone()] },
-        Mix { hostile: false, partial: false, name: "FO+FO ratios 3e-5 apart".to_string(), cfgs: vec![fo.clone(), { let mut c = fo.clone(); c.ratio += 3.0e-5; c }] },
+        Mix { hostile: 1, partial: false, name: "SI+FI rejected calls, subnormal signal".to_string(), cfgs: vec![si.clone(), fi.clone()] },
+        Mix { hostile: 1, partial: false, name: "SO+FO rejected calls, subnormal signal".to_string(), cfgs: vec![so.clone(), fo.clone()] },
+        Mix { hostile: 1, partial: false, name: "SI+XI rejected calls, subnormal signal".to_string(), cfgs: vec![si.clone(), Cfg::fft(Kind::XI, 2, 3, 32, 2).with_channels(2)] },
+        Mix { hostile: 1, partial: false, name: "FI+SO+XX rejected calls, subnormal signal".to_string(), cfgs: vec![fi.clone(), so.clone(), Cfg::fft(Kind::XX, 2, 3, 16, 1).with_channels(2)] },
+        Mix { hostile: 1, partial: false, name: "XO+SI rejected calls, subnormal signal".to_string(), cfgs: vec![Cfg::fft(Kind::XO, 2, 3, 48, 2).with_channels(2), si.clone()] },
+        Mix { hostile: 2, partial: false, name: "SO+SO masked call after a ratio decrease".to_string(), cfgs: vec![so.clone(), { let mut c = so.clone(); c.max_rel = 8.0; c }] },
+        Mix { hostile: 2, partial: false, name: "SI+FO masked call after a ratio decrease".to_string(), cfgs: vec![si.clone(), { let mut c = fo.clone(); c.max_rel = 4.0; c }] },
+        Mix { hostile: 2, partial: false, name: "FI+SO masked call after a ratio decrease".to_string(), cfgs: vec![{ let mut c = fi.clone(); c.max_rel = 4.0; c }, so.clone()] },
+        Mix { hostile: 0, partial: false, name: "FO+FO ratios 3e-5 apart".to_string(), cfgs: vec![fo.clone(), { let mut c = fo.clone(); c.ratio += 3.0e-5; c }] },
     ];
     // lifecycles: three instances with distinct settings built in every order, one of them
     // dropped, a fourth built with the settings of one of the three (a per-thread registry of
@@ -246,10 +259,10 @@ fn mixes() -> Vec<Mix> {
             c.window = win;
             c
         };
-        v.push(Mix { hostile: false, partial: false, name: "lifecycle sinc: three windows".to_string(), cfgs: vec![w(rubato::WindowFunction::Hann2, 16, 8), w(rubato::WindowFunction::Blackman2, 16, 8), w(rubato::WindowFunction::BlackmanHarris2, 16, 8)] });
-        v.push(Mix { hostile: false, partial: false, name: "lifecycle sinc: three shapes".to_string(), cfgs: vec![w(rubato::WindowFunction::BlackmanHarris2, 16, 8), w(rubato::WindowFunction::BlackmanHarris2, 24, 8), w(rubato::WindowFunction::BlackmanHarris2, 16, 16)] });
-        v.push(Mix { hostile: false, partial: false, name: "lifecycle fft: three blocks".to_string(), cfgs: vec![Cfg::fft(Kind::XX, 2, 1, 96, 1).with_channels(2), Cfg::fft(Kind::XX, 2, 1, 288, 1).with_channels(2), Cfg::fft(Kind::XX, 2, 1, 192, 1).with_channels(2)] });
-        v.push(Mix { hostile: false, partial: false, name: "lifecycle fast: three degrees".to_string(), cfgs: vec![fi.clone(), { let mut c = fi.clone(); c.degree = Degree::Septic; c }, { let mut c = fi.clone(); c.degree = Degree::Linear; c }] });
+        v.push(Mix { hostile: 0, partial: false, name: "lifecycle sinc: three windows".to_string(), cfgs: vec![w(rubato::WindowFunction::Hann2, 16, 8), w(rubato::WindowFunction::Blackman2, 16, 8), w(rubato::WindowFunction::BlackmanHarris2, 16, 8)] });
+        v.push(Mix { hostile: 0, partial: false, name: "lifecycle sinc: three shapes".to_string(), cfgs: vec![w(rubato::WindowFunction::BlackmanHarris2, 16, 8), w(rubato::WindowFunction::BlackmanHarris2, 24, 8), w(rubato::WindowFunction::BlackmanHarris2, 16, 16)] });
+        v.push(Mix { hostile: 0, partial: false, name: "lifecycle fft: three blocks".to_string(), cfgs: vec![Cfg::fft(Kind::XX, 2, 1, 96, 1).with_channels(2), Cfg::fft(Kind::XX, 2, 1, 288, 1).with_channels(2), Cfg::fft(Kind::XX, 2, 1, 192, 1).with_channels(2)] });
+        v.push(Mix { hostile: 0, partial: false, name: "lifecycle fast: three degrees".to_string(), cfgs: vec![fi.clone(), { let mut c = fi.clone(); c.degree = Degree::Septic; c }, { let mut c = fi.clone(); c.degree = Degree::Linear; c }] });
     }
     // FFT lengths that divide each other (a planner shared between instances serves parts of
     // the longer transform from what it planned for the shorter one): smooth lengths n and k*n
@@ -258,7 +271,7 @@ fn mixes() -> Vec<Mix> {
             if n * k > 6000 {
                 continue;
             }
-            v.push(Mix { hostile: false, partial: false, name: format!("pool fft XX 2->1 block {} + block {}", n, n * k), cfgs: vec![Cfg::fft(Kind::XX, 2, 1, n, 1), Cfg::fft(Kind::XX, 2, 1, n * k, 1)] });
+            v.push(Mix { hostile: 0, partial: false, name: format!("pool fft XX 2->1 block {} + block {}", n, n * k), cfgs: vec![Cfg::fft(Kind::XX, 2, 1, n, 1), Cfg::fft(Kind::XX, 2, 1, n * k, 1)] });
         }
     }
     v.extend(pool_pairs());
@@ -326,7 +339,7 @@ fn pool_pairs() -> Vec<Mix> {
                 if partial && (p[i].channels == p[j].channels && p[i].kind == p[j].kind) {
                     continue;
                 }
-                v.push(Mix { hostile: false, partial, name: format!("pool {}{} + {}", if partial { "(end of stream) " } else { "" }, p[i].short(), p[j].short()), cfgs: vec![p[i].clone(), p[j].clone()] });
+                v.push(Mix { hostile: 0, partial, name: format!("pool {}{} + {}", if partial { "(end of stream) " } else { "" }, p[i].short(), p[j].short()), cfgs: vec![p[i].clone(), p[j].clone()] });
             }
         }
     }
